@@ -149,6 +149,7 @@ def mapgraph(pid, tier, seed, jobs, profiles):
     failures = []  # (props-set, example)
     for job in jobs:
         tag = "%s-%s-%s" % (pid, tier, job["tag"])
+        jkey = job_key(job)
         pair = job.get("spec") == "pair"
         micro = job.get("spec") == "micro"
         if micro:
@@ -202,7 +203,7 @@ def mapgraph(pid, tier, seed, jobs, profiles):
                 except Exception:
                     pass
                 failures.append(({"CRASH"}, {"how": "the harness process died (signal/abort) while executing this transition (%s build)" % prof,
-                                             "msg": "exit status %s; output: %s" % (p.returncode, p.stdout[-1500:]), "transition": line, "table": table, "line": case}))
+                                             "msg": "exit status %s; output: %s" % (p.returncode, p.stdout[-1500:]), "transition": line, "table": table, "line": case, "jobkey": jkey}))
                 continue
             rep = json.load(open(rep_path))
             summary["replays"].append({"tag": tag, "profile": prof, "edges": rep["edges"], "walks": rep["walks"], "walk_steps": rep["walk_steps"],
@@ -234,8 +235,51 @@ def mapgraph(pid, tier, seed, jobs, profiles):
                     ex["profile"] = prof
                     ex["table"] = table
                     ex["count"] = rep["fail_counts"].get(prop, 0)
+                    ex["jobkey"] = jkey
                     failures.append(({prop}, ex))
     return summary, failures
+
+
+def job_key(job):
+    return json.dumps({k: v for k, v in job.items() if k not in ("walks", "steps", "timeout")}, sort_keys=True)
+
+
+ALL_PIDS = ["C%02d" % i for i in range(1, 21)]
+
+
+def run_matrix(tier, seed, only=None):
+    """Development tool (mutant evaluation): run every distinct job once and report, per
+    property, whether its check would raise a violation."""
+    uniq = {}
+    owners = {}
+    for pid in ALL_PIDS:
+        for j in jobs_for(pid, tier) or []:
+            k = job_key(j)
+            uniq.setdefault(k, j)
+            owners.setdefault(k, set()).add(pid)
+    jobs = list(uniq.values())
+    for n, j in enumerate(jobs):
+        j = dict(j)
+        j["tag"] = "%s-%d" % (j["tag"], n)
+        jobs[n] = j
+    summary, failures = mapgraph("ALL", tier, seed, jobs, ["debug", "release"])
+    info, fl = nostd_probe()
+    verdict = {}
+    for pid in ALL_PIDS:
+        gate = GATES.get(pid, {pid, "CRASH"}) | {"SPEC"}
+        mine = []
+        for props, ex in failures:
+            jk = ex.get("jobkey")
+            base = json.dumps({k: v for k, v in json.loads(jk).items()}, sort_keys=True) if jk else None
+            owned = any(pid in owners.get(k, ()) for k in owners if base and json.loads(k).get("family") == json.loads(base).get("family")
+                        and json.loads(k).get("consts") == json.loads(base).get("consts") and json.loads(k).get("mode") == json.loads(base).get("mode")
+                        and json.loads(k).get("spec") == json.loads(base).get("spec") and json.loads(k).get("sweep") == json.loads(base).get("sweep"))
+            if props & gate and owned:
+                mine.append(ex)
+        if pid == "C06":
+            mine.extend(ex for props, ex in fl)
+        verdict[pid] = mine
+    return summary, verdict
 
 
 # per property: which jobs decide it and which failure attributions gate it
@@ -438,6 +482,13 @@ def main():
                     if "Semantic errors" in p.stdout or "Fatal" in p.stdout or "Could not parse" in p.stdout or p.returncode != 0:
                         raise ToolError("SANY rejects %s:\n%s" % (f, p.stdout[-2000:]))
             print("setup ok")
+            return 0
+        if cmd == "matrix":
+            tier = sys.argv[sys.argv.index("--tier") + 1] if "--tier" in sys.argv else "quick"
+            os.makedirs(WORK, exist_ok=True)
+            summary, verdict = run_matrix(tier, int(os.environ.get("VERIF_SEED", "1")))
+            out = {pid: [{"how": e.get("how"), "msg": (e.get("msg") or "")[:400], "op": (e.get("transition") or {}).get("o")} for e in v[:2]] for pid, v in verdict.items() if v}
+            print("MATRIX " + json.dumps({"violating": sorted(out), "drift": summary["drift"], "examples": out}))
             return 0
         if cmd == "run":
             pid = sys.argv[2]
